@@ -1,23 +1,38 @@
 (* The faithful world machine: the code's data structures and statement
    order, deterministic.  (Phase A: the entity part of WorldExt.)
    Definitions only. *)
-From SV Require Export World.Ops Alloc.AllocStep.
+From SV Require Export World.Ops World.Env Alloc.AllocStep.
 
 Record world := {
   w_alloc : astate;
   w_hs : pvec entity;          (* handles returned so far, by position *)
   w_hl : list entity;          (* the same, most recent first *)
-  w_stuck : bool }.            (* a panic outside the allocator (unwrap/expect) *)
+  w_stuck : bool;              (* a panic outside the allocator (unwrap/expect) *)
+  w_env : senv }.              (* component storages *)
 
 Definition w_init : world :=
-  {| w_alloc := a_init; w_hs := pv_empty; w_hl := []; w_stuck := false |}.
+  {| w_alloc := a_init; w_hs := pv_empty; w_hl := []; w_stuck := false; w_env := env_init false |}.
 
 Definition with_alloc (w : world) (a : astate) : world :=
-  {| w_alloc := a; w_hs := w_hs w; w_hl := w_hl w; w_stuck := w_stuck w |}.
+  {| w_alloc := a; w_hs := w_hs w; w_hl := w_hl w; w_stuck := w_stuck w; w_env := w_env w |}.
 Definition push_h (w : world) (e : entity) : world :=
-  {| w_alloc := w_alloc w; w_hs := pv_push (w_hs w) e; w_hl := e :: w_hl w; w_stuck := w_stuck w |}.
+  {| w_alloc := w_alloc w; w_hs := pv_push (w_hs w) e; w_hl := e :: w_hl w; w_stuck := w_stuck w; w_env := w_env w |}.
 Definition w_set_stuck (w : world) : world :=
-  {| w_alloc := w_alloc w; w_hs := w_hs w; w_hl := w_hl w; w_stuck := true |}.
+  {| w_alloc := w_alloc w; w_hs := w_hs w; w_hl := w_hl w; w_stuck := true; w_env := w_env w |}.
+Definition with_env (w : world) (e : senv) : world :=
+  {| w_alloc := w_alloc w; w_hs := w_hs w; w_hl := w_hl w; w_stuck := w_stuck w; w_env := e |}.
+
+(* what the storage layer sees of the allocator *)
+Definition a_view (a : astate) : aview :=
+  {| av_alive := a_is_alive a; av_cur_gen := cur_gen a; av_err_gen := err_gen a |}.
+
+Definition w_insert_comps (w : world) (e : entity) (cs : comps) : world :=
+  with_env w (env_insert_comps (w_env w) (a_view (w_alloc w)) e cs).
+
+(* delete_entities after the allocator's kill: purge the killed prefix (all on success) *)
+Definition w_purge_killed (w : world) (es : list entity) (r : option (nat * Z)) : world :=
+  let killed := match r with None => es | Some (pos, _) => firstn pos es end in
+  with_env w (env_delete_components (w_env w) killed).
 
 Definition hget (hs : pvec entity) (h : href) : option entity := pv_get hs (N.of_nat h).
 
@@ -47,25 +62,28 @@ Definition w_builder_drop (w : world) (e : entity) : world :=
   let '(a', r) := a_kill_atomic (w_alloc w) e in
   match r with None => with_alloc w a' | Some _ => w_set_stuck (with_alloc w a') end.
 
-Definition wstep (fixed : bool) (w : world) (o : op) : world * wout :=
+Definition wstep (fixed : bool) (w0 : world) (o : op) : world * wout :=
+  let w := with_env w0 (env_begin (w_env w0)) in
   match o with
-  | OCreate _ => let '(w1, e) := w_create false w in (w1, WHandles [e])
-  | OCreateDropped _ => let '(w1, e) := w_create false w in (w_builder_drop w1 e, WHandles [e])
+  | OCreate cs => let '(w1, e) := w_create false w in (w_insert_comps w1 e cs, WHandles [e])
+  | OCreateDropped cs =>
+      let '(w1, e) := w_create false w in (w_builder_drop (w_insert_comps w1 e cs) e, WHandles [e])
   | OCreateIter n => let '(w1, l) := w_create_n false n w in (w1, WHandles l)
   | OECreate => let '(w1, e) := w_create true w in (w1, WHandles [e])
   | OECreateIter n => let '(w1, l) := w_create_n true n w in (w1, WHandles l)
-  | OEBuild built _ =>
+  | OEBuild built cs =>
       let '(w1, e) := w_create true w in
-      ((if built then w1 else w_builder_drop w1 e), WHandles [e])
+      let w2 := w_insert_comps w1 e cs in
+      ((if built then w2 else w_builder_drop w2 e), WHandles [e])
   | OLazyCreate _ => let '(w1, e) := w_create true w in (w1, WHandles [e])
   | ODelete h =>
       match hget (w_hs w) h with
-      | Some e => let '(a', r) := a_kill fixed (w_alloc w) [e] in (with_alloc w a', WKill r)
+      | Some e => let '(a', r) := a_kill fixed (w_alloc w) [e] in (w_purge_killed (with_alloc w a') [e] r, WKill r)
       | None => (w, WSkip)
       end
   | ODeleteMany hs =>
       match hget_all (w_hs w) hs with
-      | Some es => let '(a', r) := a_kill fixed (w_alloc w) es in (with_alloc w a', WKill r)
+      | Some es => let '(a', r) := a_kill fixed (w_alloc w) es in (w_purge_killed (with_alloc w a') es r, WKill r)
       | None => (w, WSkip)
       end
   | OEDelete h =>
@@ -76,8 +94,12 @@ Definition wstep (fixed : bool) (w : world) (o : op) : world * wout :=
   | ODeleteAll =>
       let es := a_entities (w_alloc w) in
       let '(a', r) := a_kill fixed (w_alloc w) es in
-      ((match r with None => with_alloc w a' | Some _ => w_set_stuck (with_alloc w a') end), WEnts es)
-  | OMaintain => let '(a', _) := a_merge (w_alloc w) in (with_alloc w a', WUnit)
+      let w1 := w_purge_killed (with_alloc w a') es r in
+      ((match r with None => w1 | Some _ => w_set_stuck w1 end), WEnts es)
+  | OMaintain =>
+      let '(a', deleted) := a_merge (w_alloc w) in
+      let w1 := with_alloc w a' in
+      ((match deleted with [] => w1 | _ => with_env w1 (env_delete_components (w_env w1) deleted) end), WUnit)
   | OIsAlive h =>
       match hget (w_hs w) h with
       | Some e => (w, WBool (a_is_alive (w_alloc w) e))
@@ -95,6 +117,9 @@ Definition wstep (fixed : bool) (w : world) (o : op) : world * wout :=
       | None => (w, WSkip)
       end
   | OProbeAll => (w, WBools (rev (map (a_is_alive (w_alloc w)) (w_hl w))))
+  | OStore so =>
+      let '(e', out) := env_sop (w_env w) (a_view (w_alloc w)) (w_hs w) so in (with_env w e', out)
+  | ODropWorld => (with_env w (env_drop_world (w_env w)), WUnit)
   | OBad => (w, WSkip)
   end.
 
@@ -105,4 +130,4 @@ Fixpoint wrun (fixed : bool) (w : world) (os : list op) : world * list wout :=
                 let '(w2, outs) := wrun fixed w1 os' in (w2, out :: outs)
   end.
 
-Definition w_is_stuck (w : world) : bool := w_stuck w || a_stuck (w_alloc w).
+Definition w_is_stuck (w : world) : bool := w_stuck w || a_stuck (w_alloc w) || cx_stuck (se_cx (w_env w)).
